@@ -141,7 +141,8 @@ Inductive nclass :=
 | NcComment
 | NcField
 | NcFieldList
-| NcSlice (of_fields : bool).   (* gogrep.NodeSlice of printable nodes resp. of fields *)
+| NcSlice (of_fields : bool)    (* gogrep.NodeSlice of printable nodes resp. of fields *)
+| NcPartial.                    (* gogrep.PartialNode: the header / the range clause of a range statement (the MATCH of such a pattern) *)
 
 Definition print_ok (h : list string) (recur : bool) (c : nclass) : bool :=
   match c with
@@ -150,15 +151,16 @@ Definition print_ok (h : list string) (recur : bool) (c : nclass) : bool :=
   | NcField => mem "*ast.Field" h
   | NcFieldList => mem "*ast.FieldList" h && recur && mem "*ast.Field" h
   | NcSlice f => mem "*gogrep.NodeSlice" h && recur && (negb f || mem "*ast.Field" h)
+  | NcPartial => mem "*gogrep.PartialNode" h
   end.
 
 Definition print_handles_all (h : list string) (recur : bool) : bool :=
-  mem "*ast.Comment" h && mem "*ast.Field" h && mem "*ast.FieldList" h && mem "*gogrep.NodeSlice" h && recur.
+  mem "*ast.Comment" h && mem "*ast.Field" h && mem "*ast.FieldList" h && mem "*gogrep.NodeSlice" h && recur && mem "*gogrep.PartialNode" h.
 
 Lemma print_handles_all_spec h recur c : print_handles_all h recur = true -> print_ok h recur c = true.
 Proof.
-  unfold print_handles_all. rewrite !andb_true_iff. intros ((((H1 & H2) & H3) & H4) & H5).
-  destruct c as [| | | |f]; cbn; rewrite ?H1, ?H2, ?H3, ?H4, ?H5; try reflexivity. now destruct f.
+  unfold print_handles_all. rewrite !andb_true_iff. intros (((((H1 & H2) & H3) & H4) & H5) & H6).
+  destruct c as [| | | |f|]; cbn; rewrite ?H1, ?H2, ?H3, ?H4, ?H5, ?H6; try reflexivity. now destruct f.
 Qed.
 
 (* fetching the text of a non-absent capture of class c; readable: its extent lies inside the bytes on disk *)
@@ -184,6 +186,16 @@ Theorem unhandled_list_crashes ac tg recur tf n f : access_safe tg ac = true -> 
   closure_run_on ac tg ["*ast.Comment"] recur false (ShList (S n)) (NcSlice f) tf = Panic PExplicit /\
   closure_run_on ac tg ["*ast.Comment"] recur false ShNode NcFieldList tf = Panic PExplicit /\
   closure_run_on ac tg ["*ast.Comment"] recur true (ShList (S n)) (NcSlice f) tf = Ok tt.
+Proof.
+  intros Ha Ht. unfold closure_run_on. rewrite !(filters_total ac tg _ tf Ha), Ht. repeat split.
+Qed.
+
+(* the same for the match of a range-header / range-clause pattern (a gogrep.PartialNode is no go/ast node at all): a fallback
+   that knows node lists, fields and field lists only (the tree before the fix) crashes on `$$` of `for $k, $v := range $x` *)
+Theorem unhandled_partial_crashes ac tg recur tf : access_safe tg ac = true -> ac_text ac = true ->
+  closure_run_on ac tg ["*ast.Comment"; "*gogrep.NodeSlice"; "*ast.FieldList"; "*ast.Field"] recur false ShNode NcPartial tf = Panic PExplicit /\
+  closure_run_on ac tg ["*ast.Comment"; "*gogrep.NodeSlice"; "*ast.FieldList"; "*ast.Field"] recur true ShNode NcPartial tf = Ok tt /\
+  closure_run_on ac tg ["*ast.Comment"; "*gogrep.NodeSlice"; "*gogrep.PartialNode"; "*ast.FieldList"; "*ast.Field"] recur false ShNode NcPartial tf = Ok tt.
 Proof.
   intros Ha Ht. unfold closure_run_on. rewrite !(filters_total ac tg _ tf Ha), Ht. repeat split.
 Qed.
